@@ -21,7 +21,26 @@ def _feed_variants(bs):
     for b in bs:
         p2.feed_byte(b)
     b_ = parsing.canon_list(list(p2))
-    return a, b_
+    # one-shot iterables are documented input as well (generator, iterator, map)
+    c = parsing.canon_list(mido.parse_all(iter(list(bs))))
+    d = parsing.canon_list(list(mido.Parser(b for b in bs)))
+    tk = mido.tokenizer.Tokenizer(map(int, bs))
+    e = len(list(tk))
+    return a, b_, c, d, e
+
+
+def variants_fail(s):
+    """feed()/feed_byte()/iterator variants against parse_all on the same bytes"""
+    try:
+        a, b, c, d, e = _feed_variants(s)
+    except Exception as ex:
+        return f'Parser.feed/feed_byte raised {type(ex).__name__}: {ex}'
+    ref = parsing.impl_parse_all(s)[0][3:]
+    if not (a == b == ref):
+        return f'Parser.feed / feed_byte / parse_all disagree: {a!r} {b!r} {ref!r}'
+    if not (c == d == ref) or e != (ref.count(';') + 1 if ref else 0):
+        return f'the same bytes as a one-shot iterator / generator / map give {c!r} / {d!r} / {e} tokens, as a list {ref!r}'
+    return None
 
 
 def run(ck):
@@ -58,19 +77,16 @@ def run(ck):
     # feed()/feed_byte() variants on a subsample
     sub = seqs[::7][:20000]
     for s in sub:
-        try:
-            a, b = _feed_variants(s)
-        except Exception as e:
-            ck.oracle_fail({'bytes': list(s)}, f'Parser.feed/feed_byte raised {type(e).__name__}: {e}')
-            continue
-        ref = parsing.impl_parse_all(s)[0][3:]
         ck.evaluations += 1
-        if not (a == b == ref):
-            ck.oracle_fail({'bytes': list(s)}, f'Parser.feed / feed_byte / parse_all disagree: {a!r} {b!r} {ref!r}')
+        f = variants_fail(s)
+        if f:
+            ck.oracle_fail({'bytes': list(s), 'variants': True}, f)
     return ck.finish(RULE, assumptions=['inputs are integers 0..255 (other items raise TypeError/ValueError by contract)'])
 
 
 def oracle(case):
+    if case.get('variants'):
+        return variants_fail(case['bytes'])
     return parsing.impl_parse_all(case['bytes'])[1]
 
 
